@@ -59,4 +59,3 @@ pub broadcast proof fn axiom_fmt_pathbuf() ensures #[trigger] vstd::std_specs::f
 pub broadcast proof fn axiom_fmt_path() ensures #[trigger] vstd::std_specs::fmt::fmt_req_all::<&std::path::Path>() {}
 #[verifier::external_body]
 pub broadcast proof fn axiom_fmt_ioerr() ensures #[trigger] vstd::std_specs::fmt::fmt_req_all::<std::io::Error>() {}
-pub broadcast group group_fmt { axiom_fmt_pathbuf, axiom_fmt_path, axiom_fmt_ioerr }
